@@ -594,11 +594,11 @@ class Envelope:
         while self.expansion_level < ExpansionLevel.Matrix:
             self.expand()
 
-        self.reorder(*states)
         C = Config()
 
         if len(states) == 2 and self.state is None:
             self.combine()
+        self.reorder(*states)
 
         reshape_shape = [-1, -1]
         assert isinstance(self.fock.index, int) and isinstance(
